@@ -971,6 +971,9 @@ def _acos_new(x):
         return t
     t, s, co = new_atom('acos', kind='acos')
     c.assumptions += [co.e == x.e, s.e >= 0, t.e >= 0, t.e <= p]
+    # A3 enclosures on the principal range (sound for every real argument), near 0 and near pi
+    for (u, su, cu) in ((t.e, s.e, co.e), (p - t.e, s.e, -co.e)):
+        c.assumptions += [su <= u, su >= u - u * u * u / 6, cu >= 1 - u * u / 2, cu <= 1 - u * u / 2 + u * u * u * u / 24]
     if c.values:
         for nm, (v2, s2, c2) in prior:
             c.assumptions.append(z3.Implies(z3.And(v2 >= 0, v2 <= p, c2 == x.e), t.e == v2))
